@@ -2,7 +2,7 @@
    Statements only; proofs in Proofs/{LogicProofs,SortProofs,RestoreProofs}.v. *)
 From Coq Require Import Permutation.
 From TV Require Import Prelude.Str Prelude.PosixPath Prelude.SortStable Logic.PyInt Logic.Indexes Logic.Scope
-  Prog.Prog Cmd.Restore Proofs.ProgProofs Proofs.LogicProofs Proofs.SortProofs Proofs.RestoreProofs.
+  Prog.Prog Cmd.Restore Proofs.ProgProofs Proofs.LogicProofs Proofs.SortProofs Proofs.RestoreProofs World.World Proofs.WorldProofs Proofs.WorldRestore.
 Open Scope Z_scope.
 
 (* scope: an entry is offered iff the requested directory is "/", or is the entry's location itself, or the
@@ -43,6 +43,14 @@ Theorem restore_selection_exact : forall o,
                          match out with Done code => sel_final s code | _ => True end) (restore_main o).
 Proof. exact restore_selection_lemma. Qed.
 Print Assumptions restore_selection_exact.
+
+(* ---- on the tree of files (World.v): a run that does not reach a valid, non-empty selection - nothing to offer, an empty reply,
+   an invalid or out-of-range reply, end of input - leaves every file system it is consistent with exactly as it was ---- *)
+Theorem restore_without_selection_changes_nothing : forall o,
+  all_runs (fun t _ => forall st, accepts sel_step (0%nat, Before) t = Some st -> snd st <> Allowed ->
+                                  forall s s', wrun s t s' -> same s s') (restore_main o).
+Proof. exact restore_without_selection_lemma. Qed.
+Print Assumptions restore_without_selection_changes_nothing.
 
 (* ---- non-vacuity ---- *)
 Example prefix_sibling_not_in_scope : matches_path ($"/a/foobar") ($"/a/foo") = false /\ matches_path ($"/a/foo/x") ($"/a/foo") = true.
